@@ -49,9 +49,10 @@ def dump(fn):
         else: print("    %s" % k)
 if __name__ == "__main__":
     cfg, pat = sys.argv[1], sys.argv[2]
+    raw = "--raw" in sys.argv
     crates, info = facts.load(cfg)
-    for cn, c in crates.items():
-        prog = Program(c)
+    for cn in crates:
+        prog, _ = load_program(cfg, cn, inline=not raw)
         for p, f in prog.fns.items():
             if pat in p:
                 dump(f); print()
